@@ -112,4 +112,24 @@ example :
     a.s.hs 2 = none ∧ a.ownedBySusp 2 = false ∧ (a.exec (.lock .try 2 1 .none 100)).2.res.isGuard = true ∧
     (absSpec a.s).vals 1 = some 10 := by decide
 
+/-- **A guard method is the plain map's method on its own key** — public-call level, every reachable API state (streams open,
+waiters queued on this and other keys, suspended calls): `value`/`value_mut`/`insert`/`try_insert`/`remove`/`value_or_insert` through
+a client's guard `h` answers what the atomic specification's plain map answers for the guard's key, leaves under that key exactly what the
+plain map would hold, and changes the value of no other key. With `C02_plain_lock_reads_current` (the next guard reads the map's value)
+this is "the next guard sees exactly what the previous guard left" at the level of the public calls. -/
+theorem C02_guard_op_is_map_op (kind : Kind) (cs : List Call) (h : Nat) (hd : Handle) (g : GOp) :
+    let a := cs.foldl (fun a c => (a.exec c).1) (Api.init kind)
+    a.s.hs h = some hd → hd.st = .holding → a.ownedBySusp h = false →
+    (a.exec (.op h g)).2.res = .out (match g with | .key => Out.nat hd.key | _ => (specOp ((absSpec a.s).vals hd.key) g).2) ∧
+    absVal (a.exec (.op h g)).1.s hd.key = (specOp ((absSpec a.s).vals hd.key) g).1 ∧
+    ∀ k', k' ≠ hd.key → absVal (a.exec (.op h g)).1.s k' = absVal a.s k' := by
+  intro a hh hst1 hos
+  exact op_plain a (ainv_execs cs _ (ainv_init kind)).inv h hd g hh hst1 hos
+
+/-- non-vacuity: guard 1 on key 1 with waiter 2 queued behind it and a stream open; the guard is a client's guard -/
+example :
+    let a := ((((Api.init .lru).exec (.lock .wait 1 1 .none 100)).1.exec (.lock .wait 2 1 .none 100)).1.exec (.lockAll 1 200)).1
+    hst (a.s.hs 1) = some .holding ∧ a.ownedBySusp 1 = false ∧
+    absVal (a.exec (.op 1 (.insert 5))).1.s 1 = some 5 := by decide
+
 end Lockable
